@@ -103,6 +103,8 @@ type Universe struct {
 	Fail      map[string]bool
 	Requests  []string // model call log, in request order
 	IndexErr  error    // invalid schema found while indexing (duplicate anchor, bad $id, ...)
+
+	loadedText map[*Resource]string
 }
 
 // DraftOf returns the draft a $schema value selects, and whether it is supported.
@@ -357,6 +359,7 @@ func (u *Universe) Target(n *Node, ref string) (t *Node, dynName string, err err
 				return nil, "", &ErrNothing{ref, "bad document"}
 			}
 			d := u.Draft
+			aliased := false
 			if m, ok := raw.(map[string]any); ok {
 				if s, ok := m["$schema"].(string); ok {
 					dd, sup := DraftOf(s, u.Draft)
@@ -364,8 +367,24 @@ func (u *Universe) Target(n *Node, ref string) (t *Node, dynName string, err err
 						d = dd
 					}
 				}
+				// The same document fetched under a second URI (retrieval URI vs
+				// canonical $id): an alias of the resource that is already indexed.
+				if id, ok := m["$id"].(string); ok && id != "" {
+					canon := ResolveURI(ParseURI(docPart), ParseURI(id)).NoFrag().String()
+					if prev, ok := u.Resources[canon]; ok && canon != docPart && u.loadedText[prev] == text {
+						u.Resources[docPart] = prev
+						u.Docs[docPart] = prev.Root.Doc
+						aliased = true
+					}
+				}
 			}
-			u.index(raw, docPart, d)
+			if !aliased {
+				doc := u.index(raw, docPart, d)
+				if u.loadedText == nil {
+					u.loadedText = map[*Resource]string{}
+				}
+				u.loadedText[doc.Root.Res] = text
+			}
 		}
 		res, ok = u.Resources[docPart]
 		if !ok {
